@@ -27,7 +27,7 @@ import (
 
 type faultPlan struct {
 	Tree  int    `json:"tree"`
-	Class string `json:"class"` // ssend srecv rsend rrecv cancelS cancelR walk read hasher notify sigkill vanish fanout
+	Class string `json:"class"` // ssend srecv rsend rrecv cancelS cancelR walk read hasher notify sigkill vanish rootfail fanout
 	Mode  string `json:"mode,omitempty"`
 	K     int    `json:"k"`
 	J     int    `json:"j,omitempty"`
@@ -120,6 +120,12 @@ func c04Plans(tier string) []faultPlan {
 			}
 		}
 	}
+	// the source root itself cannot be read when the walk starts: it was
+	// removed after the FS object was made, or the (unprivileged) sender may
+	// not list it. Prior destination in sync, so that "an empty tree" shows.
+	for t := 0; t < trees; t++ {
+		out = append(out, mkPlan(1000+t, "rootfail", "gone", 0, 0), mkPlan(1000+t, "rootfail", "perm", 0, 0), mkPlan(t, "rootfail", "gone", 1, 0), mkPlan(t, "rootfail", "perm", 1, 0))
+	}
 	for i := 0; i < fan; i++ {
 		pl := mkPlan(i, "fanout", []string{"rsend-sticky", "cancelR", "cancelS", "srecv-sticky", "ssend-sticky", "rrecv-eof", "notify-backlog", "hasher-backlog", "cancelR-backlog", "teardown-backlog"}[i%10], 0, (i/10)%2)
 		// every second block of twenty: the contexts outlive the transport
@@ -205,7 +211,7 @@ func init() {
 	core.Register(&core.Prop{
 		ID:    "C04",
 		Level: "fault_enumeration",
-		Rule: "for a fixed 12-entry tree (and, in the thorough tier, 11 mutated variants) EVERY operation index k of every fault class is enumerated: error (once / sticky) or EOF at the k-th SendMsg/RecvMsg of either endpoint, cancellation of either context at global stream operation k, walk error at entry k, entry k removed from the disk at the moment the walk reports it (its lstat fails; the source view of that run is the directory without it), read error after j in {0,1,mid-chunk,chunk boundary,last byte} bytes of file k, hasher error at call k, notify error at call k, SIGKILL of a receiver process (real pipes, util.NewProtoStream) after k packets; plus sampled faults on a 300-file fan-out whose DATA packets are gated so that >132 requests are pending when the fault hits. Real Send and Receive run with separate contexts; termination is decided by the quiescence detector (teardown by the harness is allowed once, quiescence after it is a violation), leaks by goroutine sampling, false success by the C01 oracle and the packet log, recovery by a follow-up clean transfer. " +
+		Rule: "for a fixed 12-entry tree (and, in the thorough tier, 11 mutated variants) EVERY operation index k of every fault class is enumerated: error (once / sticky) or EOF at the k-th SendMsg/RecvMsg of either endpoint, cancellation of either context at global stream operation k, walk error at entry k, entry k removed from the disk at the moment the walk reports it (its lstat fails; the source view of that run is the directory without it), the source root itself unreadable when the walk starts (removed after the FS object was made; not listable for a uid-1234 sender), read error after j in {0,1,mid-chunk,chunk boundary,last byte} bytes of file k, hasher error at call k, notify error at call k, SIGKILL of a receiver process (real pipes, util.NewProtoStream) after k packets; plus sampled faults on a 300-file fan-out whose DATA packets are gated so that >132 requests are pending when the fault hits. Real Send and Receive run with separate contexts; termination is decided by the quiescence detector (teardown by the harness is allowed once, quiescence after it is a violation), leaks by goroutine sampling, false success by the C01 oracle and the packet log, recovery by a follow-up clean transfer. " +
 			"non-trivial = the addressed operation was reached (fault fired); distinct by fault plan; plans whose operation index exceeds the run are reported as not fired",
 		Assumptions:   []string{"root", "Open failures map to empty content by design and are not injected", "kernel-level disk faults on the receiving side are out of scope", "teardown = both directions fail and both contexts are cancelled (what a transport does when the connection breaks)"},
 		Cases:         func(tier string) int { return len(c04Plans(tier)) },
@@ -245,6 +251,9 @@ func c04Run(c *core.Ctx) *core.Result {
 	}
 	if plan.Class == "vanish" {
 		return c04Vanish(c, r, plan, src, dest)
+	}
+	if plan.Class == "rootfail" {
+		return c04RootFail(c, r, plan, src, dest)
 	}
 	obs := &c04Obs{}
 	sf := newSynthFS(src)
@@ -380,6 +389,51 @@ func (v *vanishFS) Walk(ctx context.Context, target string, fn gofs.WalkDirFunc)
 		n++
 		return fn(p, d, err)
 	})
+}
+
+// c04RootFail: the walk of the source fails at the root itself.
+func c04RootFail(c *core.Ctx, r *core.Result, plan faultPlan, src *tree.Tree, dest string) *core.Result {
+	sd := filepath.Join(c.Dir, "src-rootfail")
+	if os.Mkdir(sd, 0755) != nil || tree.Materialise(sd, src) != nil {
+		r.Inconclusive = "materialise source"
+		return r
+	}
+	base, err := fsutil.NewFS(sd)
+	if err != nil {
+		r.Inconclusive = "NewFS: " + err.Error()
+		return r
+	}
+	var srcFS fsutil.FS = base
+	if plan.K%2 == 1 {
+		if srcFS, err = fsutil.NewFilterFS(base, &fsutil.FilterOpt{}); err != nil {
+			r.Inconclusive = "NewFilterFS: " + err.Error()
+			return r
+		}
+	}
+	so := syncOpt{Cfg: wire.Config{Cap: 8}, Src: srcFS, Dest: dest, TeardownWhenStuck: true, Timeout: 90 * time.Second}
+	var res *syncRes
+	switch plan.Mode {
+	case "gone":
+		if err := os.RemoveAll(sd); err != nil {
+			r.Inconclusive = "remove source: " + err.Error()
+			return r
+		}
+		res = runSync(so)
+	case "perm":
+		// searchable, not listable; both ends run as uid 1234
+		os.Lchown(sd, 0, 0)
+		os.Chmod(sd, 0711)
+		os.Chmod(c.Dir, 0755)
+		chownTree(dest, 1234, 1234)
+		if err := asUser(1234, 1234, func() { res = runSync(so) }); err != nil {
+			r.Inconclusive = "cannot switch uid: " + err.Error()
+			return r
+		}
+		chownTree(dest, 0, 0)
+	}
+	r.Count("walks_failing_at_the_source_root", 1)
+	c04Judge(c, r, plan, res, src, nil, dest, true)
+	return r
 }
 
 func c04Vanish(c *core.Ctx, r *core.Result, plan faultPlan, src *tree.Tree, dest string) *core.Result {
